@@ -229,6 +229,8 @@ def drive(mod, tier):
     except build.BuildError as ex:
         print('HARNESS-ERROR build failed\n%s' % ex)
         return 2
+    global FSIZE_CAP
+    FSIZE_CAP = getattr(mod, 'FSIZE_CAP', FSIZE_CAP)
     if hasattr(mod, 'prepare'):
         mod.prepare(tier)
     known = load_known(mod.ID)
